@@ -18,19 +18,31 @@ RULE = ("for every class with a hand-written __eq__/__hash__ (52 constructors in
         "instances are generated from JSON descriptions through the public constructors (each optional parameter omitted "
         "with p~0.3, all omitted with p=0.2; reals on a 1/16 grid, short decimals, arbitrary doubles and 10^3..10^5 magnitudes; "
         "id sets with members k, k+8, k+16 that collide in CPython's set tables); one case = one instance with its battery: "
-        "itself, deepcopy, an independently built twin, every set/dict insertion order permuted, and EVERY constructor "
-        "parameter changed alone to another valid value (reals by 1.7e-10 .. 1), plus correspondence-only probes (2e-11 "
-        "shifts, None vs empty container, reversed lists, shifted trajectory); non-trivial = every case (>= 1 perturbed pair); "
-        "distinct = distinct canonical JSON of the instance description")
+        "itself, deepcopy, an independently built twin, every set/dict insertion order permuted (all sets at all depths at "
+        "once), and EVERY constructor parameter changed alone to another valid value (reals by 1.7e-10 .. 1), plus "
+        "correspondence-only probes (2e-11 shifts, None vs empty container, reversed lists, shifted trajectory) and, for the "
+        "hashability model, 3 ill-typed probes per instance (one constructor argument replaced by None / [1] / [[1]] / "
+        "{'k': [1]} where the constructor accepts it); non-trivial = every case (>= 1 perturbed pair); distinct = distinct "
+        "canonical JSON of the instance description")
 ASSUMPTIONS = [
     "Python's hash of tuple/frozenset/str/int/float/None/Enum is a function of the ==-class of its argument and collides on "
-    "unequal arguments only with negligible probability (generators avoid the systematic collisions hash(-1)==hash(-2))",
+    "unequal arguments only with negligible probability (generators avoid the systematic collisions hash(-1)==hash(-2), hash('')==hash(0))",
     "np.around(x, 10) / round(x, 10) put two doubles that differ by more than 1.5e-10 (|x| <= 1e5) into different buckets and "
     "leave a double with <= 4 decimals and the same double + 2e-11 in one bucket (the model rounds the exact rational)",
-    "copy.deepcopy reproduces every attribute value; set/dict semantics of CPython",
+    "copy.deepcopy reproduces every attribute value (x == deepcopy(x) is C12_eq_refl plus this; exercised on every instance); "
+    "set/dict semantics of CPython",
+    "which outermost forms make hash(), tuple(), frozenset(), dict.items(), json.dumps, str and np.asarray(..).astype(float) raise "
+    "is the table `step` of CRModel/HashKey.lean (tabulated against CPython/numpy; compared with the real hash() on every "
+    "generated instance and every ill-typed probe); the elements of an ndarray are not represented (iterating one is "
+    "modelled as a failure, which no builder of the tables does); a numeric string under convArr counts as a failure",
+    "admitted attribute types (`hrow`) describe what the public constructors store for valid arguments, None defaults "
+    "included; every generated instance is checked to be well-typed in the model",
     "kwargs-only extension attributes of TrajectoryPrediction / DynamicObstacle (**kwargs) are not constructor parameters of the property",
+    "not demanded: order of list-valued attributes that the code compares as sets; None vs the empty container as a "
+    "constructor-visible difference (several classes document None as 'no ids')",
 ]
-TRUSTED = ["harness/c12_specs.py: JSON description -> object builders and the getter-based encoder that feeds the model"]
+TRUSTED = ["harness/c12_specs.py: JSON description -> object builders and the two getter-based encoders (untyped for ==/hash "
+           "agreement, typed for hashability) that feed the model"]
 REQUIRED_BUCKETS = ["cls:" + c for c in S.CLASSES] + ["pair:self", "pair:deepcopy", "pair:twin", "pair:permuted", "pair:perturbed",
                                                         "defaults-only", "probe:sub-threshold", "probe:none-vs-empty",
                                                         "probe:reversed-list", "table-row", "hash:well-typed",
@@ -329,6 +341,19 @@ def check_signatures(ctx):
         m = model.get(cls)
         if m is None:
             continue
+        # oracle for a constructor parameter the generators do not know (added to the code after this check was written):
+        # two instances that differ only in it must be unequal
+        for q in [p for p in sig if p not in {pp.name for pp in spec.params}] if spec.family != "State" and cls != "SignalState" else []:
+            for v1, v2 in ((1, 2), ("a", "b"), (True, False), (0.5, 1.5), (None, "a")):
+                dx = S.gen_obj(ctx.rng, cls)
+                dy = copy.deepcopy(dx)
+                dx["args"][q], dy["args"][q] = v1, v2
+                x, y = try_build(dx), try_build(dy)
+                if x is None or y is None:
+                    continue
+                ob = observe(x, y)
+                oracle_pair(ctx, cls, dx, dy, x, y, ob, "perturbed", q, "unequal")
+                break
         ctx.compare({"cls": cls}, {"family": spec.family, "params": sig}, {"family": m["family"], "params": [p for p, _ in m["params"]]},
                     f"inspect.signature({cls}) vs model ctors")
         if spec.family == "State":
